@@ -165,6 +165,9 @@ func (fr *FnRun) eval(e *Expr, env *Env) Val {
 		return nilMarker{}
 	case "ident":
 		if v, ok := env.vars[e.Name]; ok {
+			if cr, isCell := v.(*CellRef); isCell {
+				return ex.force(env.st, ex.load(env.st, cr.P))
+			}
 			return ex.force(env.st, v)
 		}
 		if v, ok := fr.pkgConst(fr.envPkg(env), e.Name); ok {
@@ -447,6 +450,12 @@ func (fr *FnRun) evalQuant(e *Expr, env *Env) Val {
 	// forall x :: trigger(pattern..., body): an explicit (multi-)pattern
 	var trig []*Term
 	bodyE := e.Z
+	altTrig := false
+	if bodyE.Kind == "call" && bodyE.X.Kind == "ident" && bodyE.X.Name == "triggers" {
+		// triggers(p1, p2, ..., body): ALTERNATIVE patterns (any one of them instantiates)
+		altTrig = true
+		bodyE = &Expr{Kind: "call", X: &Expr{Kind: "ident", Name: "trigger"}, Args: bodyE.Args}
+	}
 	if bodyE.Kind == "call" && bodyE.X.Kind == "ident" && bodyE.X.Name == "trigger" && len(bodyE.Args) >= 2 {
 		for _, pa := range bodyE.Args[:len(bodyE.Args)-1] {
 			if pt, ok := fr.ex.force(cur.st, fr.eval(pa, cur)).(*Term); ok {
@@ -460,6 +469,7 @@ func (fr *FnRun) evalQuant(e *Expr, env *Env) Val {
 		q := Forall(bound, Implies(rng, body))
 		if q.Op == "forall" && len(trig) > 0 {
 			q.Pats = trig
+			q.AltPats = altTrig
 			return q
 		}
 		if q.Op == "forall" {
